@@ -209,6 +209,13 @@ class Replayer:
             meta_iter = [c.name for c in tbl]
             meta_len = len(tbl)
             meta_dir = dir(tbl)
+            # `in` with a column REFERENCE: true exactly for the columns of the exported frame (not for hidden columns still in scope)
+            vis = set(tbl._cache.uuid_to_name)
+            for cid, ref in list(side.colmap.items()):
+                u = getattr(ref, "_uuid", None)
+                if u is not None and u in tbl._cache.cols and (ref in tbl) != (u in vis):
+                    self.fail(node, beh, k, bk, "meta", f"`<reference to column {cid}> in table` is {ref in tbl}, the column is {'visible' if u in vis else 'hidden'}")
+                    break
         except Exception as e:  # noqa: BLE001
             self.fail(node, beh, k, bk, "meta", f"metadata accessor raised {exc_class(e)}: {e}")
             meta_cols = None
